@@ -26,7 +26,7 @@ META = {
     ),
     "assumptions": ["exact reals: negation and comparison are exact on doubles; percentile interpolation is claimed over the reals",
                     "objective and intermediate values pairwise distinct (stated in the property)"],
-    "outside": ["WilcoxonPruner", "GP / CMA-ES samplers", "equality of whole seeded parameter sequences (depends on the direction-"
+    "outside": ["the numeric value of SciPy's Wilcoxon p-value (modelled as an uninterpreted function with the test's exact symmetry)", "GP / CMA-ES samplers", "equality of whole seeded parameter sequences (depends on the direction-"
                 "agnostic numeric remainder of each sampler)"],
 }
 
@@ -286,6 +286,58 @@ def make_nsga2_elite_body(n, d):
     return body
 
 
+class WilcoxonStub:
+    """scipy.stats stand-in: wilcoxon(d, alternative) returns a p-value that is an uninterpreted function of the test's canonical input.
+    The signed-rank test is exactly symmetric: p_less(d) == p_greater(-d), so both orientations share one canonical key (d for 'greater',
+    -d for 'less'); two calls whose canonical inputs are provably equal get the same symbolic p in [0, 1]."""
+
+    def __init__(self):
+        self.cache = []
+
+    def wilcoxon(self, diffs, alternative="two-sided", zero_method="wilcox"):
+        import types
+        ds = [sx.proxies.to_real(x) for x in list(diffs)]
+        canon = [d if alternative == "greater" else -d for d in ds]
+        ex = sx.cur()
+        for (c2, pv) in self.cache:
+            if len(c2) == len(canon):
+                ok, _ = ex._check(sx.proxies.z3.Not(sx.proxies.z3.And([a == b for a, b in zip(canon, c2)])))
+                if not ok:
+                    return types.SimpleNamespace(pvalue=pv)
+        pv = sx.sym_real(f"pvalue{len(self.cache)}", 0, 1)
+        self.cache.append((canon, pv))
+        return types.SimpleNamespace(pvalue=pv)
+
+
+def wilcoxon_body():
+    from optuna.pruners import _wilcoxon as pw, WilcoxonPruner
+    from stubs.npshim import npshim
+    pw.np = npshim
+    pw.ss = WilcoxonStub()
+    n_startup = sx.choose([0, 2, 3], "n_startup_steps")
+    pth = sx.sym_real("p_threshold", 0, 1)
+    a, b = mk_studies()
+    nb = sx.choose([2, 3], "best_steps")
+    best_iv = {s_: sx.sym_real(f"best_s{s_}") for s_ in range(nb)}
+    add_both(a, b, TrialState.COMPLETE, best_iv, value=sx.sym_real("best_value"))
+    steps = [0, 1, 2]
+    mask = sx.choose(list(range(1, 1 << len(steps))), "cur.steps")
+    civ = {s_: sx.sym_real(f"cur_s{s_}") for k, s_ in enumerate(steps) if mask >> k & 1}
+    distinct(list(best_iv.values()) + list(civ.values()))
+    ca = create_trial(state=TrialState.RUNNING, intermediate_values=civ)
+    cb = create_trial(state=TrialState.RUNNING, intermediate_values={k: neg(v) for k, v in civ.items()})
+    ca.number = cb.number = 1
+    mk = lambda: WilcoxonPruner(p_threshold=pth, n_startup_steps=n_startup)  # noqa: E731
+    import warnings
+    warnings.simplefilter("ignore")
+    ra = c16.P(mk().prune(a, ca))
+    rb = c16.P(mk().prune(b, cb))
+    sx.reach("compared")
+    if ra is not False:
+        sx.reach("prune-possible")
+    return sx.iff(ra, rb)
+
+
 def tie_rounding_witness():
     """concrete witness of the recorded floating-point finding: the value sits exactly on the interpolated percentile, and
     np.nanpercentile(v, 100-q) and -np.nanpercentile(-v, q) differ by one ulp, so the strict comparisons disagree"""
@@ -348,6 +400,9 @@ def obligations(tier):
         Obligation("tpe-split", tpe_split_body, setup, CODE, bounds=dict(trials=4, n_below="0..3"), shard_depth=5, budget_s=900,
                    classify=classify, require_reach=["compared"], describe="TPE _split_trials below/above numbers equal"),
     ]
+    obs.append(Obligation("wilcoxon", wilcoxon_body, setup, CODE, bounds=dict(best_steps=[2, 3], cur_steps="subsets of {0,1,2}", p_value="uninterpreted symmetric function"),
+                          shard_depth=3, budget_s=600, classify=classify, require_reach=["compared", "prune-possible"],
+                          describe="WilcoxonPruner decisions equal on mirrored studies (SciPy's test replaced by an uninterpreted symmetric p-value)"))
     obs.append(Obligation("nsga2-elite-2d", make_nsga2_elite_body(3, 2), setup, CODE, bounds=dict(individuals=3, objectives=2, population_size=2),
                           shard_depth=4, budget_s=900, timeout_ms=120000, classify=classify, require_reach=["compared"],
                           describe="NSGA-II elite population (rank + crowding distance), ordered, equal under any flipped subset"))
